@@ -95,6 +95,12 @@ NEEDS = {
  'C07e': ('RandomRotate90 maps "xz" to axes (2, 1)', 'RandomRotate90(axes="xz") with an odd factor: image rotated the other way'),
  'C16e': ('_BaseRandomSizedCrop.apply_to_dicom passes the row factor as scale_x', 'RandomSizedCrop with different row and column factors, dicom target'),
  'C20e': ('PixelDropout.apply_to_mask tests `if not self.mask_drop_value`', 'PixelDropout(mask_drop_value=0) with a mask'),
+ 'C04e': ('calculate_bbox_area_volume returns the planar area as the volume when slices == 1', 'boxes on a single-slice frame: wholly outside along z, or min_volume / min_volume_visibility set'),
+ 'C08e': ('PadIfNeeded random position draws with randrange(0, pad) instead of randint(0, pad)', 'PadIfNeeded(position="random") when an axis needs no padding'),
+ 'C09e': ('GridDropout writes the clamped shift back onto the instance', 'GridDropout with a random unit size and a large shift, called on the same object after a call that drew a smaller unit'),
+ 'C11e': ('GaussNoise.apply writes the noisy channel into the caller\'s image when apply_to_channel_idx is set', 'GaussNoise(apply_to_channel_idx=k) on an H x W x D x C image'),
+ 'C15e': ('Compose.__call__ tests `force_apply is True`', 'a Compose with p < 1 forced with force_apply=1 (documented as "bool or int")'),
+ 'C19e': ('clamping_crop unpacks the shape as (w, h, d) (same edit as C07d, produced independently for C19)', 'RandomCropNearBBox on a frame with rows != cols'),
  'C20b': ('GridDropout loops k over range(height // unit_depth + 1)', 'GridDropout on a volume whose depth exceeds its height by a grid unit or more'),
 }
 detected = json.load(open(os.path.join(V, 'seeded', 'detected.json'))) if os.path.exists(os.path.join(V, 'seeded', 'detected.json')) else {}
